@@ -158,12 +158,148 @@ Example C17_ex_roundtrip :
   exists st' raw, ex_parse (rev (ex_ser ex_st)) = Some (st', raw) /\ Permutation (ex_ser st' ++ raw) (rev (ex_ser ex_st)).
 Proof.
   destruct C17_ex_wf as [Hwf [Hc _]].
+  assert (Hlen : forall x, length (exH x) = 32%nat).
+  { intros x. unfold exH. rewrite firstn_length, app_length. unfold zeros. rewrite repeat_length. lia. }
+  assert (Hval : valid_state bytes bytes bytes (fun _ _ => True) (fun _ => True) (fun _ => True) ex_st).
+  { split; [intros; exact I|intros; split; intros; exact I]. }
   destruct (roundtrip_no_coincidence exH bytes ex_enc ex_dec (fun _ => []) bytes ex_id ex_some [] bytes ex_id ex_some
-              (fun _ _ => True) (fun _ => True) (fun _ => True))
-    with (st := ex_st) (kvs := rev (ex_ser ex_st)) as (st' & raw & Hp & Hr & _); [..|eauto];
-    try (intros; reflexivity); try (unfold ex_dec, ex_some, ex_enc, ex_id; intros; split; [congruence|exact I]); try exact Hwf.
-  - split; [intros; exact I|intros; split; intros; exact I].
-  - intros x. unfold exH. rewrite firstn_length, app_length. unfold zeros. rewrite repeat_length. lia.
-  - apply coll_free_true. exact Hc.
-  - apply Permutation_sym, Permutation_rev.
+              (fun _ _ => True) (fun _ => True) (fun _ => True)
+              (fun _ _ _ => eq_refl) (fun i b c E => conj (f_equal (fun o => match o with Some x => x | None => b end) E) I)
+              (fun _ _ => eq_refl) (fun b c E => conj (f_equal (fun o => match o with Some x => x | None => b end) E) I)
+              (fun _ _ => eq_refl) (fun b c E => conj (f_equal (fun o => match o with Some x => x | None => b end) E) I)
+              Hlen ex_st Hwf Hval (coll_free_true exH bytes bytes bytes ex_id ex_st Hc)
+              (rev (ex_ser ex_st)) (Permutation_sym (Permutation_rev _))) as (st' & raw & Hp & Hr & _).
+  eauto.
 Qed.
+
+(* ============================================================================================== *)
+(* Instantiation with the development's concrete definitions (Proofs/StateKVInstP.v): the codecs are the
+   generic strict codec of Model/Codec.v on the descriptors of the node's types (Model/JamTypes.v), their
+   laws are C11_codec_roundtrip / C13_codec_canonical; the root is the Appendix D root of Model/Trie.v,
+   its permutation invariance is C15_root_perm_invariant.  Nothing about codecs or the root function is
+   assumed any more; the hash is still any function with 32-byte output, collisions explicit.
+   A state component is a [val]; enc_of / dec_of / ok_of are the adapter documented in StateKVInstP.v. *)
+From JamV Require Import Model.Codec Model.JamTypes Model.Trie Proofs.StateKVInstP.
+
+(* for ANY well-formed descriptors of the 16 components, of the service information and of the lookup value *)
+Theorem C17_desc_roundtrip_root : forall (H : bytes -> bytes), (forall x, length (H x) = 32%nat) ->
+  forall (cdesc : N -> desc) (dinfo dts : desc),
+  (forall i, wf_desc (cdesc i) = true) -> wf_desc dinfo = true -> wf_desc dts = true ->
+  forall (zero_comp : N -> val) (zero_info : val) (st : state val val val) (kvs : list kv),
+  wf_state (enc_of dts) st ->
+  valid_state val val val (fun i => ok_of (cdesc i)) (ok_of dinfo) (ok_of dts) st ->
+  Permutation kvs (d_serialize H cdesc dinfo dts st) ->
+  (exists st' raw, d_parse H cdesc dinfo dts zero_comp zero_info kvs = Some (st', raw) /\
+                   Permutation (d_serialize H cdesc dinfo dts st' ++ raw) kvs /\
+                   root H (d_serialize H cdesc dinfo dts st' ++ raw) = root H (d_serialize H cdesc dinfo dts st))
+  \/ coincidence H (enc_of dts) st.
+Proof. exact desc_roundtrip_root. Qed.
+Print Assumptions C17_desc_roundtrip_root.
+
+(* for the node's descriptors (every parameter set p: tiny, full, ...): export, import in any order,
+   export again — same key-value multiset and the same Appendix D state root, or a coincidence *)
+Theorem C17_jam_roundtrip_root : forall (H : bytes -> bytes), (forall x, length (H x) = 32%nat) ->
+  forall (p : params) (zero_comp : N -> val) (zero_info : val) (st : state val val val) (kvs : list kv),
+  jam_wf st -> jam_valid p st -> Permutation kvs (jam_serialize H p st) ->
+  (exists st' raw, jam_parse H p zero_comp zero_info kvs = Some (st', raw) /\
+                   Permutation (jam_serialize H p st' ++ raw) kvs /\
+                   root H (jam_serialize H p st' ++ raw) = root H (jam_serialize H p st))
+  \/ jam_coincidence H st.
+Proof. exact jam_roundtrip_root. Qed.
+Print Assumptions C17_jam_roundtrip_root.
+
+(* ... and the import recovers every component value, exactly the services with their service information *)
+Theorem C17_jam_recovers : forall (H : bytes -> bytes), (forall x, length (H x) = 32%nat) ->
+  forall (p : params) (zero_comp : N -> val) (zero_info : val) (st : state val val val) (kvs : list kv),
+  jam_wf st -> jam_valid p st -> Permutation kvs (jam_serialize H p st) ->
+  (exists st' raw, jam_parse H p zero_comp zero_info kvs = Some (st', raw) /\
+     Permutation (jam_serialize H p st' ++ raw) kvs /\
+     (forall i, In i idx16 -> st_comp st' i = st_comp st i) /\
+     (forall s a, In (s, a) (st_delta st) -> exists a', In (s, a') (st_delta st') /\ a_info a' = a_info a) /\
+     (forall s a', In (s, a') (st_delta st') -> exists a, In (s, a) (st_delta st)) /\
+     (forall k v, In (k, v) raw -> exists s a, In (s, a) (st_delta st) /\ is_entry H val val (enc_of dTimeSlotSet) s a k v))
+  \/ jam_coincidence H st.
+Proof. exact jam_recovers. Qed.
+Print Assumptions C17_jam_recovers.
+
+(* the import side alone on ANY key-values with the node's descriptors: nothing lost, nothing invented,
+   hence the root of what the node re-exports is the root of what it was given *)
+Theorem C17_jam_import_export_any : forall (H : bytes -> bytes) (p : params) (zero_comp : N -> val) (zero_info : val)
+  (kvs : list kv) (st : state val val val) (raw : list kv),
+  NoDup (map fst kvs) -> jam_parse H p zero_comp zero_info kvs = Some (st, raw) ->
+  (forall i, In i idx16 -> In (key_fixed i) (map fst kvs)) ->
+  (forall s, In s (map fst (st_delta st)) -> s < 2 ^ 32 /\ In (key_svc_idx 255 s) (map fst kvs)) ->
+  Permutation (jam_serialize H p st ++ raw) kvs /\ root H (jam_serialize H p st ++ raw) = root H kvs.
+Proof. exact jam_import_export_any. Qed.
+Print Assumptions C17_jam_import_export_any.
+
+(* the component index -> descriptor table is the node's: D.2 order *)
+Example C17_jam_descs : forall p,
+  state_desc p 1 = dAuthPools p /\ state_desc p 4 = dSafroleState p /\ state_desc p 11 = dTimeSlot /\
+  state_desc p 13 = dStatistics p /\ state_desc p 16 = dLastAccOut /\ map (state_desc p) idx16 = state_descs p.
+Proof. intros p. repeat split; reflexivity. Qed.
+
+(* Non-vacuity with the real codec, tiny parameters, the toy hash exH: every component is the simplest
+   well-typed value of its descriptor except tau = 77 and one pool entry; service 7 has a real
+   service-information value, a storage entry, the preimage "5 6 7" with its lookup entry (two time
+   slots) and a lookup entry without preimage. *)
+Fixpoint dflt (d : desc) : val :=
+  match d with
+  | DU _ | DNat _ | DBits _ => VN 0
+  | DFix n => VB (zeros n)
+  | DBlob | DBlob2 => VB []
+  | DSeq _ _ | DMap _ _ => VL []
+  | DVec n d' => VL (repeat (dflt d') n)
+  | DOpt _ => VO None
+  | DVar alts => match alts with (t, d') :: _ => VT t (dflt d') | [] => VN 0 end
+  | DStruct ds => VL (map dflt ds)
+  end.
+Definition jex_comp (i : N) : val :=
+  if i =? 11 then VN 77
+  else if i =? 1 then VL [VL [VB (repeat 3 32)]; VL []]
+  else dflt (state_desc tiny i).
+Definition jex_acc : account val val :=
+  {| a_info := VL [VN 0; VB (repeat 9 32); VN 1000; VN 10; VN 20; VN 300; VN 0; VN 4; VN 1; VN 2; VN 0];
+     a_storage := [([1; 2], [9; 9])];
+     a_pre := [(exH ex_blob, ex_blob)];
+     a_lk := [((exH ex_blob, 3), VL [VN 5; VN 6]); ((exH [8], 9), VL [])] |}.
+Definition jex_st : state val val val := {| st_comp := jex_comp; st_delta := [(7, jex_acc)] |}.
+
+Example C17_jam_ex_premises :
+  jam_wf jex_st /\ jam_valid tiny jex_st /\ jam_coll_free exH jex_st = true /\ length (jam_serialize exH tiny jex_st) = 21%nat.
+Proof.
+  split; [|split; [|split; vm_compute; reflexivity]].
+  - split; [repeat constructor; intros []|].
+    repeat constructor; try (vm_compute; reflexivity).
+    all: cbn; intuition discriminate.
+  - split.
+    + intros i Hi. unfold idx16 in Hi. cbn [In] in Hi. unfold ok_of.
+      repeat (destruct Hi as [<-|Hi]; [vm_compute; reflexivity|]). contradiction.
+    + intros s a [[= <- <-]|[]]. split; [vm_compute; reflexivity|].
+      intros e [<-|[<-|[]]]; vm_compute; reflexivity.
+Qed.
+
+Example C17_jam_ex_roundtrip :
+  exists st' raw, jam_parse exH tiny (fun _ => VN 0) (VN 0) (rev (jam_serialize exH tiny jex_st)) = Some (st', raw) /\
+    Permutation (jam_serialize exH tiny st' ++ raw) (rev (jam_serialize exH tiny jex_st)) /\
+    root exH (jam_serialize exH tiny st' ++ raw) = root exH (jam_serialize exH tiny jex_st).
+Proof.
+  destruct C17_jam_ex_premises as (Hwf & Hval & Hc & _).
+  assert (Hlen : forall x, length (exH x) = 32%nat).
+  { intros x. unfold exH. rewrite firstn_length, app_length. unfold zeros. rewrite repeat_length. lia. }
+  exact (jam_roundtrip_decided exH Hlen tiny (fun _ => VN 0) (VN 0) jex_st _ Hwf Hval Hc
+           (Permutation_sym (Permutation_rev _))).
+Qed.
+
+(* computed: the real codec decodes every exported value, the preimage and its lookup entry are attributed,
+   tau and the service information come back, two entries stay raw *)
+Example C17_jam_ex_parse :
+  match jam_parse exH tiny (fun _ => VN 0) (VN 0) (rev (jam_serialize exH tiny jex_st)) with
+  | Some (st', raw) =>
+      st_comp st' 11 = VN 77 /\ map (st_comp st') idx16 = map jex_comp idx16 /\
+      map (fun sa => (fst sa, a_info (snd sa), a_pre (snd sa), a_lk (snd sa))) (st_delta st')
+      = [(7, a_info jex_acc, [(exH ex_blob, ex_blob)], [((exH ex_blob, 3), VL [VN 5; VN 6])])] /\
+      length raw = 2%nat
+  | None => False
+  end.
+Proof. vm_compute. repeat split; reflexivity. Qed.
